@@ -2899,9 +2899,34 @@ struct LedgerClient {
     out: Vec<u8>,
     /// response DATA by stream
     bodies: BTreeMap<u32, Vec<u8>>,
+    /// receive side: `Some((stream window, connection window))` the client advertised; it then keeps
+    /// the ledger of what sozu sends and replenishes at half
+    recv_limits: Option<(i64, i64)>,
+    recv_conn_left: i64,
+    recv_stream_left: BTreeMap<u32, i64>,
+    recv_violations: Vec<String>,
+    /// streams the client has reset: their DATA still counts against the connection window only
+    cancelled: std::collections::BTreeSet<u32>,
+    ping_acks: Vec<Vec<u8>>,
 }
 
 impl LedgerClient {
+    fn new(st: TlsStream) -> LedgerClient {
+        LedgerClient {
+            st, rx: vec![], pos: 0, enc: loona_hpack::Encoder::new(), dec: loona_hpack::Decoder::new(), peer_init: 65535, conn_avail: 65535,
+            stream_avail: BTreeMap::new(), conn_credit: 0, sent_total: 0, data_started: false, full_window: 65535, rst: BTreeMap::new(),
+            status: BTreeMap::new(), ended: Default::default(), goaway: None, settings_seen: false, settings_acked: false, closed: None, out: vec![],
+            bodies: BTreeMap::new(), recv_limits: None, recv_conn_left: 0, recv_stream_left: BTreeMap::new(), recv_violations: vec![],
+            cancelled: Default::default(), ping_acks: vec![],
+        }
+    }
+
+    /// advertise `iw` per stream (SETTINGS in the hello is the caller's job) and `conn` on the connection, and keep the ledger
+    fn track_recv(&mut self, iw: i64, conn: i64) {
+        self.recv_limits = Some((iw, conn));
+        self.recv_conn_left = conn;
+    }
+
     fn flush(&mut self) {
         use std::io::Write;
         if !self.out.is_empty() {
@@ -2972,11 +2997,38 @@ impl LedgerClient {
                     }
                 }
                 0 => {
-                    self.bodies.entry(sid).or_default().extend_from_slice(&pl);
+                    if let Some((iw, conn)) = self.recv_limits {
+                        let n = pl.len() as i64;
+                        self.recv_conn_left -= n;
+                        if self.recv_conn_left < 0 {
+                            self.recv_violations.push(format!("DATA of {n} bytes on stream {sid} leaves the connection window at {}", self.recv_conn_left));
+                        }
+                        if self.recv_conn_left <= conn / 2 {
+                            let inc = conn - self.recv_conn_left;
+                            self.recv_conn_left += inc;
+                            self.out.extend_from_slice(&frame(8, 0, 0, &(inc as u32).to_be_bytes()));
+                        }
+                        if !self.cancelled.contains(&sid) {
+                            let left = self.recv_stream_left.entry(sid).or_insert(iw);
+                            *left -= n;
+                            if *left < 0 {
+                                self.recv_violations.push(format!("DATA of {n} bytes leaves the window of stream {sid} at {left}"));
+                            }
+                            if *left <= iw / 2 && fl & 1 == 0 {
+                                let inc = iw - *left;
+                                *left += inc;
+                                self.out.extend_from_slice(&frame(8, 0, sid, &(inc as u32).to_be_bytes()));
+                            }
+                        }
+                    }
+                    if !self.cancelled.contains(&sid) {
+                        self.bodies.entry(sid).or_default().extend_from_slice(&pl);
+                    }
                     if fl & 1 != 0 {
                         self.ended.insert(sid);
                     }
                 }
+                6 if fl & 1 != 0 => self.ping_acks.push(pl.clone()),
                 3 if pl.len() == 4 => {
                     self.rst.insert(sid, u32::from_be_bytes([pl[0], pl[1], pl[2], pl[3]]));
                 }
@@ -3097,12 +3149,7 @@ fn case_front_rxledger(ctx: &mut Ctx, tls: &mut TlsCtx, name: &str, steps: &[RxS
             return case;
         }
     };
-    let mut cl = LedgerClient {
-        st, rx: vec![], pos: 0, enc: loona_hpack::Encoder::new(), dec: loona_hpack::Decoder::new(), peer_init: 65535, conn_avail: 65535,
-        stream_avail: BTreeMap::new(), conn_credit: 0, sent_total: 0, data_started: false, full_window: 65535, rst: BTreeMap::new(),
-        status: BTreeMap::new(), ended: Default::default(), goaway: None, settings_seen: false, settings_acked: false, closed: None, out: vec![],
-        bodies: BTreeMap::new(),
-    };
+    let mut cl = LedgerClient::new(st);
     let mut hello = b"PRI * HTTP/2.0\r\n\r\nSM\r\n\r\n".to_vec();
     hello.extend_from_slice(&settings_frame(&[(4, 1 << 20)]));
     hello.extend_from_slice(&frame(8, 0, 0, &(1u32 << 24).to_be_bytes()));
@@ -3486,12 +3533,7 @@ fn case_backend_stream_limit(ctx: &mut Ctx, tls: &mut TlsCtx, n: u32, k: usize, 
             return case;
         }
     };
-    let mut cl = LedgerClient {
-        st, rx: vec![], pos: 0, enc: loona_hpack::Encoder::new(), dec: loona_hpack::Decoder::new(), peer_init: 65535, conn_avail: 65535,
-        stream_avail: BTreeMap::new(), conn_credit: 0, sent_total: 0, data_started: false, full_window: 65535, rst: BTreeMap::new(),
-        status: BTreeMap::new(), ended: Default::default(), goaway: None, settings_seen: false, settings_acked: false, closed: None, out: vec![],
-        bodies: BTreeMap::new(),
-    };
+    let mut cl = LedgerClient::new(st);
     let mut hello = b"PRI * HTTP/2.0\r\n\r\nSM\r\n\r\n".to_vec();
     hello.extend_from_slice(&settings_frame(&[(4, 1 << 20)]));
     hello.extend_from_slice(&frame(8, 0, 0, &(1u32 << 24).to_be_bytes()));
@@ -3889,12 +3931,7 @@ fn case_cl_matrix(ctx: &mut Ctx, tls: &mut TlsCtx, cc: &ClCase, fails: &mut Vec<
             return None;
         }
     };
-    let mut cl = LedgerClient {
-        st, rx: vec![], pos: 0, enc: loona_hpack::Encoder::new(), dec: loona_hpack::Decoder::new(), peer_init: 65535, conn_avail: 65535,
-        stream_avail: BTreeMap::new(), conn_credit: 0, sent_total: 0, data_started: false, full_window: 65535, rst: BTreeMap::new(),
-        status: BTreeMap::new(), ended: Default::default(), goaway: None, settings_seen: false, settings_acked: false, closed: None, out: vec![],
-        bodies: BTreeMap::new(),
-    };
+    let mut cl = LedgerClient::new(st);
     let mut hello = b"PRI * HTTP/2.0\r\n\r\nSM\r\n\r\n".to_vec();
     hello.extend_from_slice(&settings_frame(&[(4, 1 << 20)]));
     if cl.st.write_all(&hello).and_then(|_| cl.st.flush()).is_err() {
@@ -4305,12 +4342,7 @@ fn case_window_rules_front(ctx: &mut Ctx, tls: &mut TlsCtx, name: &str, ops: &[W
             return case;
         }
     };
-    let mut cl = LedgerClient {
-        st, rx: vec![], pos: 0, enc: loona_hpack::Encoder::new(), dec: loona_hpack::Decoder::new(), peer_init: 65535, conn_avail: 65535,
-        stream_avail: BTreeMap::new(), conn_credit: 0, sent_total: 0, data_started: false, full_window: 65535, rst: BTreeMap::new(),
-        status: BTreeMap::new(), ended: Default::default(), goaway: None, settings_seen: false, settings_acked: false, closed: None, out: vec![],
-        bodies: BTreeMap::new(),
-    };
+    let mut cl = LedgerClient::new(st);
     // default windows on both levels: the arithmetic below starts from 65535
     let mut hello = b"PRI * HTTP/2.0\r\n\r\nSM\r\n\r\n".to_vec();
     hello.extend_from_slice(&settings_frame(&[]));
@@ -4561,12 +4593,7 @@ fn case_window_rules_back(ctx: &mut Ctx, tls: &mut TlsCtx, name: &str, ops: &[Wi
             return case;
         }
     };
-    let mut cl = LedgerClient {
-        st, rx: vec![], pos: 0, enc: loona_hpack::Encoder::new(), dec: loona_hpack::Decoder::new(), peer_init: 65535, conn_avail: 65535,
-        stream_avail: BTreeMap::new(), conn_credit: 0, sent_total: 0, data_started: false, full_window: 65535, rst: BTreeMap::new(),
-        status: BTreeMap::new(), ended: Default::default(), goaway: None, settings_seen: false, settings_acked: false, closed: None, out: vec![],
-        bodies: BTreeMap::new(),
-    };
+    let mut cl = LedgerClient::new(st);
     let mut hello = b"PRI * HTTP/2.0\r\n\r\nSM\r\n\r\n".to_vec();
     hello.extend_from_slice(&settings_frame(&[]));
     if cl.st.write_all(&hello).and_then(|_| cl.st.flush()).is_err() {
@@ -4605,6 +4632,400 @@ fn case_window_rules_back(ctx: &mut Ctx, tls: &mut TlsCtx, name: &str, ops: &[Wi
     let served: BTreeMap<u32, bool> = [1u32, 3].into_iter().map(|s| (s, cl.status.get(&s).map(|x| x == "200").unwrap_or(false) && cl.ended.contains(&s) && cl.bodies.get(&s).map(|b| *b == wr_body(s)).unwrap_or(false))).collect();
     let extra = format!("; client saw statuses {:?}, resets {:?}, goaway {:?}; backend notes {notes:?}", cl.status, cl.rst, cl.goaway);
     judge_window_rules("sozu as client (h2c backend connection)", "h2c-backend-window-update-rule-violated", "h2c-backend-untouched-stream-not-served", ops, &obs, &model, &served, fatal, &extra, &case, fails, dist);
+    case
+}
+
+// ------------------------------------------------ peer resets (C01 / C14) --
+//
+// One of several concurrent streams is cancelled by the peer in mid-transfer (RST_STREAM from the
+// client on a download; RST_STREAM from an h2c backend on an upload), or the h2c backend announces
+// GOAWAY with streams above its last-stream-id: the other streams must arrive complete and
+// byte-exact, windows stay respected, nothing more is sent on a stream whose reset sozu has seen,
+// and later streams are served.
+
+fn pr_body(idx: usize, len: usize) -> Vec<u8> {
+    pattern(120 + idx, len)
+}
+
+#[derive(Clone, Copy, PartialEq, Debug)]
+enum BackMode {
+    /// RST_STREAM(INTERNAL_ERROR) on the second stream once 50 KB of its body are in, then a PING as a fence
+    ResetSecond,
+    /// GOAWAY(last-stream-id = the first stream, NO_ERROR) once three streams are open; only the first is served
+    GoawayAfterThree,
+    Plain,
+}
+
+#[derive(Default)]
+struct PrShared {
+    /// `(connection, request index, body)` of every request received completely
+    complete: Vec<(usize, usize, Vec<u8>)>,
+    connections: usize,
+    violations: Vec<String>,
+    reset_idx: Option<usize>,
+    notes: Vec<String>,
+}
+
+fn serve_h2c_peer(mut c: RawConn, conn_no: usize, mode: BackMode, shared: std::sync::Arc<std::sync::Mutex<PrShared>>, stop: std::sync::Arc<std::sync::atomic::AtomicBool>) {
+    let mut pos = 0usize;
+    let mut preface = false;
+    let mut idx_of: BTreeMap<u32, usize> = BTreeMap::new();
+    let mut body_of: BTreeMap<u32, Vec<u8>> = BTreeMap::new();
+    let mut order: Vec<u32> = vec![];
+    let mut dec = loona_hpack::Decoder::new();
+    let mut enc = loona_hpack::Encoder::new();
+    let mut reset_sent: Option<u32> = None;
+    let mut fence_acked = false;
+    let mut goaway_sent = false;
+    let mut refused: Vec<u32> = vec![];
+    let mut conn_recv: i64 = 0;
+    while !stop.load(std::sync::atomic::Ordering::Relaxed) {
+        loop {
+            if !preface {
+                if c.received.len() - pos < 24 {
+                    break;
+                }
+                pos += 24;
+                preface = true;
+                let mut first = settings_frame(&[(4, 1 << 20)]);
+                first.extend_from_slice(&frame(8, 0, 0, &(1u32 << 24).to_be_bytes()));
+                if c.write_all(&first, T).is_err() {
+                    return;
+                }
+                continue;
+            }
+            if c.received.len() - pos < 9 {
+                break;
+            }
+            let h = &c.received[pos..pos + 9];
+            let len = ((h[0] as usize) << 16) | ((h[1] as usize) << 8) | h[2] as usize;
+            let (ty, fl) = (h[3], h[4]);
+            let sid = u32::from_be_bytes([h[5], h[6], h[7], h[8]]) & 0x7fff_ffff;
+            if c.received.len() - pos - 9 < len {
+                break;
+            }
+            let pl = c.received[pos + 9..pos + 9 + len].to_vec();
+            pos += 9 + len;
+            let mut complete: Option<u32> = None;
+            match ty {
+                4 if fl & 1 == 0 => {
+                    let _ = c.write_all(&frame(4, 1, 0, &[]), T);
+                }
+                6 if fl & 1 == 0 => {
+                    let _ = c.write_all(&frame(6, 1, 0, &pl), T);
+                }
+                6 => {
+                    if pl == b"rstfence" {
+                        fence_acked = true;
+                    }
+                }
+                1 => {
+                    if let Ok(list) = dec.decode(&pl) {
+                        let p = list.iter().find(|(k, _)| k == b":path").map(|(_, v)| String::from_utf8_lossy(v).into_owned()).unwrap_or_default();
+                        idx_of.insert(sid, p.rsplit("/r").next().and_then(|t| t.parse().ok()).unwrap_or(usize::MAX));
+                    }
+                    order.push(sid);
+                    if fl & 1 != 0 {
+                        complete = Some(sid);
+                    }
+                }
+                0 => {
+                    conn_recv += len as i64;
+                    if Some(sid) == reset_sent && fence_acked {
+                        if let Ok(mut g) = shared.lock() {
+                            g.violations.push(format!("connection {conn_no}: DATA of {len} bytes on stream {sid} after sozu acknowledged the PING that followed its RST_STREAM"));
+                        }
+                    }
+                    body_of.entry(sid).or_default().extend_from_slice(&pl);
+                    if conn_recv > 1 << 22 {
+                        conn_recv = 0;
+                        let _ = c.write_all(&frame(8, 0, 0, &(1u32 << 22).to_be_bytes()), T);
+                    }
+                    if body_of[&sid].len() > 1 << 19 {
+                        // keep the stream window open for long bodies
+                        let _ = c.write_all(&frame(8, 0, sid, &(1u32 << 19).to_be_bytes()), T);
+                    }
+                    if mode == BackMode::ResetSecond && conn_no == 1 && reset_sent.is_none() && order.get(1) == Some(&sid) && body_of[&sid].len() >= 50_000 && fl & 1 == 0 {
+                        let mut out = frame(3, 0, sid, &2u32.to_be_bytes());
+                        out.extend_from_slice(&frame(6, 0, 0, b"rstfence"));
+                        let _ = c.write_all(&out, T);
+                        reset_sent = Some(sid);
+                        if let Ok(mut g) = shared.lock() {
+                            g.reset_idx = idx_of.get(&sid).copied();
+                        }
+                    }
+                    if fl & 1 != 0 {
+                        complete = Some(sid);
+                    }
+                }
+                3 => {
+                    if let Ok(mut g) = shared.lock() {
+                        g.notes.push(format!("connection {conn_no}: RST_STREAM from sozu on stream {sid}: {pl:?}"));
+                    }
+                }
+                7 => return,
+                _ => {}
+            }
+            if mode == BackMode::GoawayAfterThree && conn_no == 1 && !goaway_sent && order.len() >= 3 {
+                let mut p = order[0].to_be_bytes().to_vec();
+                p.extend_from_slice(&0u32.to_be_bytes());
+                let _ = c.write_all(&frame(7, 0, 0, &p), T);
+                goaway_sent = true;
+                refused = order[1..].to_vec();
+            }
+            if let Some(s) = complete {
+                if Some(s) == reset_sent || refused.contains(&s) {
+                    continue;
+                }
+                let idx = idx_of.get(&s).copied().unwrap_or(usize::MAX);
+                let body = body_of.remove(&s).unwrap_or_default();
+                if let Ok(mut g) = shared.lock() {
+                    g.complete.push((conn_no, idx, body));
+                }
+                // the GOAWAY scenario answers its first stream only once the GOAWAY is out
+                if mode == BackMode::GoawayAfterThree && conn_no == 1 && !goaway_sent {
+                    // answered below, after the GOAWAY
+                }
+                let rb = pr_body(idx + 50, 2000 + idx);
+                let cl = rb.len().to_string();
+                let blk = enc.encode(vec![(&b":status"[..], &b"200"[..]), (&b"content-length"[..], cl.as_bytes())]);
+                let mut out = frame(1, 4, s, &blk);
+                out.extend_from_slice(&frame(0, 1, s, &rb));
+                if mode == BackMode::GoawayAfterThree && conn_no == 1 && !goaway_sent {
+                    // hold the answer until three streams are open
+                    let t = Instant::now();
+                    while order.len() < 3 && t.elapsed() < Duration::from_millis(5) {
+                        break;
+                    }
+                }
+                if c.write_all(&out, T).is_err() {
+                    return;
+                }
+            }
+        }
+        match c.read_some(Duration::from_millis(8)) {
+            ReadEnd::Done | ReadEnd::Timeout => {}
+            ReadEnd::Closed | ReadEnd::Reset => return,
+        }
+    }
+}
+
+fn case_peer_reset(ctx: &mut Ctx, tls: &mut TlsCtx, name: &str, fails: &mut Vec<Fail>, dist: &mut BTreeMap<String, u64>) -> String {
+    use std::io::Write;
+    let back_h2 = name != "client-cancels-download";
+    let (path, _cid, be) = route_tls(ctx, tls, "z", back_h2);
+    let case = format!("peer-reset[{name}] path={path}");
+    *dist.entry(format!("peer-reset:{name}")).or_insert(0) += 1;
+    let stop = std::sync::Arc::new(std::sync::atomic::AtomicBool::new(false));
+    let shared = std::sync::Arc::new(std::sync::Mutex::new(PrShared::default()));
+    let (stop_b, shared_b) = (stop.clone(), shared.clone());
+    let mode = match name {
+        "backend-resets-upload" => BackMode::ResetSecond,
+        "backend-goaway-retry" => BackMode::GoawayAfterThree,
+        _ => BackMode::Plain,
+    };
+    let dl = 600_000usize;
+    let bt = std::thread::spawn(move || {
+        let mut hs = vec![];
+        let mut no = 0usize;
+        while !stop_b.load(std::sync::atomic::Ordering::Relaxed) {
+            let Ok(mut b) = be.accept(Duration::from_millis(15)) else { continue };
+            no += 1;
+            if let Ok(mut g) = shared_b.lock() {
+                g.connections = no;
+            }
+            let (st2, sh2) = (stop_b.clone(), shared_b.clone());
+            if back_h2 {
+                hs.push(std::thread::spawn(move || serve_h2c_peer(b, no, mode, sh2, st2)));
+            } else {
+                // HTTP/1.1 backend: GET /…/r<idx> -> `dl` bytes (idx 3: a third of it)
+                hs.push(std::thread::spawn(move || {
+                    while !st2.load(std::sync::atomic::Ordering::Relaxed) {
+                        let Ok(m) = read_http_message(&mut b, Duration::from_millis(100)) else {
+                            if b.eof || b.error.is_some() {
+                                return;
+                            }
+                            continue;
+                        };
+                        let idx: usize = m.start_line.split(' ').nth(1).and_then(|p| p.rsplit("/r").next()).and_then(|t| t.parse().ok()).unwrap_or(0);
+                        let body = pr_body(idx, if idx == 3 { dl / 3 } else { dl });
+                        let mut out = format!("HTTP/1.1 200 OK\r\nContent-Length: {}\r\n\r\n", body.len()).into_bytes();
+                        out.extend_from_slice(&body);
+                        // the cancelled download makes sozu drop this connection: not an error here
+                        if b.write_all(&out, Duration::from_secs(6)).is_err() {
+                            return;
+                        }
+                    }
+                }));
+            }
+        }
+        for h in hs {
+            let _ = h.join();
+        }
+    });
+    let finish_threads = |stop: &std::sync::Arc<std::sync::atomic::AtomicBool>, bt: std::thread::JoinHandle<()>| {
+        stop.store(true, std::sync::atomic::Ordering::Relaxed);
+        let _ = bt.join();
+    };
+    let st = match tls_front(tls.front, Duration::from_millis(8)) {
+        Ok(s) => s,
+        Err(e) => {
+            finish_threads(&stop, bt);
+            fails.push(Fail { class: "h2front-transfer-failed".into(), detail: format!("tls connect: {e:?}"), case: case.clone() });
+            return case;
+        }
+    };
+    let mut cl = LedgerClient::new(st);
+    let mut hello = b"PRI * HTTP/2.0\r\n\r\nSM\r\n\r\n".to_vec();
+    hello.extend_from_slice(&settings_frame(&[]));
+    cl.track_recv(65535, 65535);
+    if cl.st.write_all(&hello).and_then(|_| cl.st.flush()).is_err() {
+        finish_threads(&stop, bt);
+        fails.push(Fail { class: "h2front-transfer-failed".into(), detail: "write hello".into(), case: case.clone() });
+        return case;
+    }
+    let t_hs = Instant::now();
+    while !(cl.settings_seen && cl.settings_acked) && t_hs.elapsed() < Duration::from_secs(3) && !cl.over() {
+        cl.pump();
+    }
+    let up = if back_h2 { 200_000usize } else { 0 };
+    let mut uploads: BTreeMap<u32, (Vec<u8>, usize, bool)> = BTreeMap::new();
+    let open = |cl: &mut LedgerClient, uploads: &mut BTreeMap<u32, (Vec<u8>, usize, bool)>, idx: usize, len: usize| {
+        let sid = 1 + 2 * idx as u32;
+        let p = format!("{path}/r{idx}");
+        let body = pr_body(idx, len);
+        let cls = body.len().to_string();
+        let mut hs: Vec<(&[u8], &[u8])> = vec![(b":method", if len > 0 { b"POST" } else { b"GET" }), (b":scheme", b"https"), (b":path", p.as_bytes()), (b":authority", b"localhost")];
+        if len > 0 {
+            hs.push((b"content-length", cls.as_bytes()));
+        }
+        let blk = cl.enc.encode(hs);
+        cl.out.extend_from_slice(&frame(1, 4 | (len == 0) as u8, sid, &blk));
+        cl.stream_avail.insert(sid, cl.peer_init);
+        if len > 0 {
+            uploads.insert(sid, (body, 0, false));
+        }
+        sid
+    };
+    let first: Vec<u32> = (0..3).map(|i| open(&mut cl, &mut uploads, i, up)).collect();
+    cl.flush();
+    let mut cancelled_at: Option<usize> = None;
+    let mut late: Option<u32> = None;
+    let deadline = Instant::now() + Duration::from_secs(8);
+    loop {
+        // uploads, round robin, inside sozu's advertised windows
+        for (sid, (body, off, done)) in uploads.iter_mut() {
+            if !*done && !cl.rst.contains_key(sid) && !cl.ended.contains(sid) {
+                let mut o = *off;
+                // at most 32 KB per turn and stream, so that the streams interleave
+                let stop_at = (o + 32_768).min(body.len());
+                *done = cl.send_data(*sid, &body[..stop_at], &mut o, stop_at == body.len()) && stop_at == body.len();
+                *off = o;
+            }
+        }
+        if name == "client-cancels-download" && cancelled_at.is_none() && cl.bodies.get(&3).map(|b| b.len()).unwrap_or(0) >= 100_000 {
+            cancelled_at = cl.bodies.get(&3).map(|b| b.len());
+            cl.out.extend_from_slice(&frame(3, 0, 3, &8u32.to_be_bytes()));
+            cl.cancelled.insert(3);
+        }
+        let settled = |cl: &LedgerClient, s: &u32| cl.ended.contains(s) || cl.rst.contains_key(s) || cl.cancelled.contains(s);
+        if late.is_none() && first.iter().all(|s| settled(&cl, s)) {
+            if cl.goaway.is_some() {
+                // sozu announced the end of this session (a default answer such as 502 does that): no new stream
+                *dist.entry("peer-reset:no-late-stream-after-goaway".into()).or_insert(0) += 1;
+                break;
+            }
+            // a later stream on the same connection must still be served
+            late = Some(open(&mut cl, &mut uploads, 3, if back_h2 { 60_000 } else { 0 }));
+        }
+        if let Some(l) = late {
+            if settled(&cl, &l) && uploads.values().all(|u| u.2 || true) {
+                break;
+            }
+        }
+        if cl.closed.is_some() || cl.goaway.map(|g| g.1 != 0).unwrap_or(false) || Instant::now() > deadline {
+            break;
+        }
+        cl.pump();
+    }
+    finish_threads(&stop, bt);
+    let g = shared.lock().unwrap_or_else(|e| e.into_inner());
+    if name == "client-cancels-download" {
+        match cancelled_at {
+            Some(n) => {
+                dist.insert("peer-reset:download-cancelled-after-bytes".into(), n as u64);
+            }
+            None => {
+                drop(g);
+                inconclusive("peer-reset set-up", "the download ended before the client could cancel it");
+            }
+        }
+    }
+    let summary = format!(
+        "client: statuses {:?}, resets {:?}, goaway {:?}, closed {:?}, cancelled at {:?}; backend: {} connection(s), complete requests {:?}, reset request {:?}, notes {:?}",
+        cl.status, cl.rst, cl.goaway, cl.closed, cancelled_at, g.connections, g.complete.iter().map(|(c, i, b)| (c, i, b.len())).collect::<Vec<_>>(), g.reset_idx, g.notes
+    );
+    let mut push = |class: &str, what: String| fails.push(Fail { class: class.into(), detail: format!("{what}; {summary}"), case: case.clone() });
+    for v in cl.recv_violations.iter().take(1) {
+        push("h2-front-window-exceeded-around-peer-reset", v.clone());
+    }
+    for v in g.violations.iter().take(1) {
+        push("h2c-backend-data-after-acknowledged-reset", v.clone());
+    }
+    // which requests must be served: all but the one the peer cancelled / reset; after a GOAWAY the
+    // streams above its last-stream-id may be retried (200) or refused explicitly, never left hanging
+    let victim: Option<usize> = match name {
+        "client-cancels-download" => Some(1),
+        "backend-resets-upload" => g.reset_idx,
+        _ => None,
+    };
+    for idx in 0..4usize {
+        let sid = 1 + 2 * idx as u32;
+        if Some(sid) != late && !first.contains(&sid) {
+            continue;
+        }
+        let status = cl.status.get(&sid).cloned();
+        let ok = status.as_deref() == Some("200") && cl.ended.contains(&sid);
+        if Some(idx) == victim {
+            if name == "backend-resets-upload" && ok {
+                push("h2c-backend-reset-stream-answered-200", format!("request {idx}: the backend reset this stream, the client got a complete 200"));
+            }
+            continue;
+        }
+        let may_be_refused = name == "backend-goaway-retry" && (idx == 1 || idx == 2);
+        if !ok {
+            let explicit = cl.rst.contains_key(&sid) || status.as_deref().map(|s| s.starts_with('5')).unwrap_or(false);
+            if may_be_refused && explicit {
+                *dist.entry("peer-reset:goaway-stream-refused".into()).or_insert(0) += 1;
+                continue;
+            }
+            let class = if may_be_refused { "h2c-backend-goaway-stream-left-hanging" } else { "h2-sibling-stream-damaged-by-peer-reset" };
+            push(class, format!("request {idx} (stream {sid}) was not served: status {status:?}, ended {}, reset {:?}", cl.ended.contains(&sid), cl.rst.get(&sid)));
+            continue;
+        }
+        if may_be_refused {
+            *dist.entry("peer-reset:goaway-stream-retried".into()).or_insert(0) += 1;
+        }
+        // bodies, both directions
+        let want_resp = if back_h2 { pr_body(idx + 50, 2000 + idx) } else { pr_body(idx, if idx == 3 { dl / 3 } else { dl }) };
+        let got = cl.bodies.get(&sid).cloned().unwrap_or_default();
+        if got != want_resp {
+            let at = got.iter().zip(want_resp.iter()).position(|(a, b)| a != b).unwrap_or(got.len().min(want_resp.len()));
+            push("h2-sibling-stream-body-differs-after-peer-reset", format!("response body of request {idx}: {} bytes, expected {}, first difference at {at}", got.len(), want_resp.len()));
+        }
+        if back_h2 {
+            let want_req = pr_body(idx, if idx == 3 { 60_000 } else { up });
+            let at_backend: Vec<&(usize, usize, Vec<u8>)> = g.complete.iter().filter(|(_, i, _)| *i == idx).collect();
+            if at_backend.len() != 1 || at_backend[0].2 != want_req {
+                push("h2-sibling-stream-body-differs-after-peer-reset", format!("request {idx} answered 200: the backend holds {} complete copies ({:?} bytes), expected one of {} bytes", at_backend.len(), at_backend.iter().map(|x| x.2.len()).collect::<Vec<_>>(), want_req.len()));
+            }
+        }
+    }
+    if name == "backend-resets-upload" && g.reset_idx.is_none() {
+        drop(push);
+        drop(g);
+        inconclusive("peer-reset set-up", "the backend never got to reset its second stream");
+    }
     case
 }
 
@@ -4694,7 +5115,7 @@ fn main() {
             Ok(mut t) => {
                 if args.prop != "C03" {
                     for (name, start, steps) in hpack_scenarios() {
-                        if family == "backend-stream-limit" || family == "rxledger" || family == "window-rules" {
+                        if family == "backend-stream-limit" || family == "rxledger" || family == "window-rules" || family == "peer-reset" {
                             break;
                         }
                         let case = guarded(&mut guard, &format!("hpack-front[{name}]"), &mut fails, &mut dist, |fails, dist| case_front_hpack(&mut ctx, &mut t, name, start, &steps, fails, dist));
@@ -4748,6 +5169,22 @@ fn main() {
                     }
                     dist.insert("window_rules_wall_ms".into(), t_wr.elapsed().as_millis() as u64);
                     if family == "window-rules" {
+                        ctx.w.stop();
+                        finish(&args, evaluations, &dist, &samples, &mut fails, &known_witnesses, &guard, t0);
+                        return;
+                    }
+                }
+                if args.prop != "C03" && (family.is_empty() || family == "peer-reset") {
+                    let t_pr = Instant::now();
+                    for name in ["client-cancels-download", "backend-resets-upload", "backend-goaway-retry"] {
+                        let case = guarded(&mut guard, &format!("peer-reset[{name}]"), &mut fails, &mut dist, |fails, dist| case_peer_reset(&mut ctx, &mut t, name, fails, dist));
+                        evaluations += 1;
+                        if let (Some(case), true) = (case, name == "backend-resets-upload") {
+                            samples.push(json!({"case": case}));
+                        }
+                    }
+                    dist.insert("peer_reset_wall_ms".into(), t_pr.elapsed().as_millis() as u64);
+                    if family == "peer-reset" {
                         ctx.w.stop();
                         finish(&args, evaluations, &dist, &samples, &mut fails, &known_witnesses, &guard, t0);
                         return;
@@ -5002,7 +5439,7 @@ fn finish(args: &verif_harness::Args, evaluations: u64, dist: &BTreeMap<String, 
         let setup = class == "worker-died" || class == "rig-setup" || class == "harness-inconclusive" || class == "listener-connect-failed";
         match args.prop.as_str() {
             // peer limits and liveness
-            "C14" => setup || class.starts_with("h2c-") || class.starts_with("h2-front-") || class.starts_with("h2tls-h1-response-stalled") || (class.starts_with("h1-h2c-") && class != "h1-h2c-keepalive-second-request-502") || class == "h2front-response-stalled" || class == "h2-frame-sync-lost-mid-data" || class == "body-corrupted-under-backpressure" || class.starts_with("hpack-") || class == "healthy-backend-request-answered-503" || class == "h2-window-rules-model-disagrees",
+            "C14" => setup || class.starts_with("h2c-") || class.starts_with("h2-front-") || class.starts_with("h2tls-h1-response-stalled") || (class.starts_with("h1-h2c-") && class != "h1-h2c-keepalive-second-request-502") || class == "h2front-response-stalled" || class == "h2-frame-sync-lost-mid-data" || class == "body-corrupted-under-backpressure" || class.starts_with("hpack-") || class == "healthy-backend-request-answered-503" || class == "h2-window-rules-model-disagrees" || class == "h2-sibling-stream-damaged-by-peer-reset",
             // request boundaries at the backend
             "C03" => setup || class.starts_with("h2-h1-") || class.starts_with("c03-"),
             // C02 runs the backend-stream-limit family only: a fully received request answered by sozu instead of the healthy backend
